@@ -9,10 +9,11 @@ import Model.CliDriver
 import Model.IterDriver
 import Model.Sequence
 import Model.PngDriver
+import Model.VectorDriver
 
 namespace Model
 
-def handlers : List (String → Req → Option String) := [handleCore, Lines.handle, Helpers.handle, CliDriver.handle, Iter.handle, handleSequence, PngDriver.handle]
+def handlers : List (String → Req → Option String) := [handleCore, Lines.handle, Helpers.handle, CliDriver.handle, Iter.handle, handleSequence, PngDriver.handle, VectorDriver.handle]
 
 def handle (line : String) : String :=
   let (cmd, r) := parseReq line
